@@ -199,11 +199,10 @@ pub fn parse_return(it: &mut LexIterator) -> ParseResult {
     let start = it.start_pos("return")?;
     it.eat(&Token::Ret, "return")?;
 
-    if let Some(end) = it.eat_if(&Token::NL) {
-        let node = Node::ReturnEmpty;
-        return Ok(Box::from(AST::new(start.union(end), node)));
-    } else if it.peek_if(&|lex| lex.token == Token::Dedent || lex.token == Token::Eof)
-        || it.peek_next().is_none()
+    // The newline that ends the statement is left to the statement list, like for any other statement.
+    if it.peek_if(&|lex| {
+        lex.token == Token::NL || lex.token == Token::Dedent || lex.token == Token::Eof
+    }) || it.peek_next().is_none()
     {
         let node = Node::ReturnEmpty;
         return Ok(Box::from(AST::new(start, node)));
